@@ -309,6 +309,47 @@ class _IntSignal(arrays.SymArray):
         return np.dtype(np.int64)
 
 
+class _IntAbscissae(arrays.SymArray):
+    """sample / trace indices held as integers: dtype int64, values stored by truncation (NumPy's cast on assignment)"""
+
+    @property
+    def dtype(self):
+        return np.dtype(np.int64)
+
+    def __setitem__(self, key, value):
+        v = value
+        if isinstance(v, np.ndarray):
+            pv = np.asarray(arrays._plain(v), dtype=object)
+            c = np.empty(pv.shape, dtype=object)
+            for pos in np.ndindex(*pv.shape):
+                c[pos] = arrays.cast_scalar(arrays._num(pv[pos]), np.int64) if isinstance(pv[pos], core.Sym) else int(pv[pos])
+            v = c
+        elif isinstance(v, core.Sym):
+            v = arrays.cast_scalar(v, np.int64)
+        elif isinstance(v, float):
+            v = int(v)
+        np.ndarray.__setitem__(self.view(np.ndarray), key, v)
+
+
+def case_taper_integer_abscissae(ctx, n):
+    """fcn_cosine evaluated on integer indices (how the spatial filters build their tapers: fcn_cosine([0, ntr_tap])(np.arange(n)))
+    gives the same soft threshold as on the same numbers held as floats"""
+    import ibldsp.utils as u
+    b0 = ctx.real("b0", 0, n - 1)
+    b1 = ctx.real("b1", 0, n - 1)
+    ctx.assume(b0 + 1 <= b1)
+    xi = arrays.mk(list(range(n)), tag=np.dtype(np.int64)).view(_IntAbscissae)
+    xf = arrays.mk([float(i) for i in range(n)], tag=np.dtype(float))
+    yi = ctx.call("fcn_cosine_int", lambda: u.fcn_cosine([b0, b1])(xi))
+    yf = ctx.call("fcn_cosine_float", lambda: u.fcn_cosine([b0, b1])(xf))
+    if not ctx.oblige("taper_keeps_the_length", np.shape(yi) == (n,) and np.shape(yf) == (n,)):
+        return
+    A = np.asarray(arrays._plain(yi), dtype=object)
+    B = np.asarray(arrays._plain(yf), dtype=object)
+    for i in range(n):
+        ctx.oblige("taper_on_integer_abscissae_equals_taper_on_floats", core.eq(A[i], B[i]), detail={"i": i, "int": A[i], "float": B[i]})
+
+
 def case_convolve_values(ctx, nsx, nsw, mode, two_d, int_signal=False):
     import ibldsp.fourier as f
     xs = [ctx.real(f"x{i}") for i in range(nsx)] if not int_signal else [ctx.int(f"x{i}", -1000, 1000) for i in range(nsx)]
@@ -425,6 +466,7 @@ def cases(tier):
     # integer-typed signal with a real kernel: the result is the real-valued convolution, not its truncation
     for mode in ("full", "same"):
         cs.append(Case(f"convolve_values_int_signal_4_3_{mode}", "case_convolve_values", {"nsx": 4, "nsw": 3, "mode": mode, "two_d": False, "int_signal": True}))
+    cs.append(Case("cosine_taper_integer_abscissae", "case_taper_integer_abscissae", {"n": 6}))
     for (p, q) in ((1, 2), (2, 5), (0, 3)) if tier == "thorough" else ((1, 2),):
         cs.append(Case(f"filters_{p}_{q}", "case_filters", {"b0n": p, "b1n": q}))
     return cs
@@ -512,6 +554,17 @@ else:
 print(X.shape, R.shape, E.shape)
 if E.shape != X.shape or not np.allclose(E, X): reproduced(f'fexpand(freduce(X), {{n}}) != X')
 if Bk.shape != Y.shape or not np.allclose(Bk, Y): reproduced(f'freduce(fexpand(Y, {{n}})) != Y')
+not_reproduced()
+"""
+    if case.startswith("cosine_taper_integer"):
+        n = params["n"]
+        b0, b1 = float(Fraction(str(m["b0"]))), float(Fraction(str(m["b1"])))
+        return f"""
+import ibldsp.utils as u
+n, b = {n}, [{b0!r}, {b1!r}]
+yi = u.fcn_cosine(b)(np.arange(n)); yf = u.fcn_cosine(b)(np.arange(n, dtype=float))
+print(yi, yf)
+if np.shape(yi) != np.shape(yf) or not np.allclose(np.asarray(yi, dtype=float), yf, atol=1e-12): reproduced(f'fcn_cosine({{b}}) on integer indices gives {{np.asarray(yi).tolist()}}, on the same numbers as floats {{yf.tolist()}}')
 not_reproduced()
 """
     if case.startswith("convolve_values_int_signal"):
